@@ -68,7 +68,7 @@ def load_facts(reg):
         if k.startswith('expr:'):
             if not (isinstance(val, dict) and 'error' in val):
                 reg.fact_values[k[5:]] = val
-        elif not isinstance(val, dict):
+        elif not isinstance(val, dict) or '__regex__' in val:
             reg.global_values[k] = val
     hook = getattr(reg, 'after_facts', None)
     if hook:
